@@ -86,6 +86,55 @@ class FpMonitor:
 FP = FpMonitor()
 
 
+def warm_other_classes(lib):
+    """Used by the odd-numbered shards before their first case: the *other* public classes of the library (subclasses and siblings that share
+    modules, base classes and class-level attributes with the class under test) are created and used first.  A process in which some other
+    part of the library ran earlier must give the same answers (state shared through class attributes / module tables / caches)."""
+    import numpy as np
+    done = []
+    try:
+        from npstructures.bitarray import BitMask, BitArray
+        m = BitMask.zeros(200)
+        m[[3, 17, 150]] = True
+        BitArray.pack(np.array([1, 0, 3, 2, 1], dtype=np.uint8), 2).unpack()
+        done.append("BitMask")
+    except Exception:
+        pass
+    try:
+        c = lib.Counter(np.array([3, 7, 11], dtype=np.int16))
+        c.count(np.array([3, 3, 99], dtype=np.int16))
+        hs = lib.HashSet(np.array([5, 9], dtype=np.uint8))
+        hs.contains(np.array([5, 6], dtype=np.uint8))
+        t = lib.HashTable(np.array([1, 2, 40]), np.array([0.5, 1.5, 2.5]), mod=3)
+        t[np.array([2, 40])]
+        done.append("hashtable")
+    except Exception:
+        pass
+    try:
+        r2 = lib.RunLength2dArray.from_array(np.array([[1, 1, 2], [3, 3, 3]], dtype=np.int8))
+        r2.to_array()
+        rr = lib.RunLengthRaggedArray.from_ragged_array(lib.RaggedArray([[1.5, 1.5], [2.0]]))
+        rr.to_array()
+        lib.RunLengthArray.from_array(np.array([True, True, False])).to_array()
+        done.append("runlength")
+    except Exception:
+        pass
+    try:
+        ra = lib.RaggedArray(np.arange(6, dtype=np.uint8), [1, 0, 5])
+        ra.sum(axis=-1), ra[1:], np.bitwise_and.reduce(ra, axis=-1), ra.max(axis=-1), str(ra), ra[:, ::-1].tolist()
+        lib.RaggedArray.from_numpy_array(np.zeros((2, 3)))
+        done.append("ragged")
+    except Exception:
+        pass
+    try:
+        B = lib.npdataclass(type("WarmBase", (), {"__annotations__": {"a": np.ndarray}}))
+        B(np.arange(3))[1:]
+        done.append("npdataclass")
+    except Exception:
+        pass
+    return done
+
+
 def run_one(prop, case, ctx):
     from .core import Result, INCONCLUSIVE, VIOLATED, violated
     ctx.take_alerts()
@@ -164,6 +213,10 @@ def main(argv=None):
     prop = importlib.import_module("rtmon.props." + a.prop.lower())
     if hasattr(prop, "setup"):
         prop.setup(lib)
+    CTX.shard = a.shard
+    warmed = warm_other_classes(lib) if (a.shard % 2 == 1 and not a.replay) else []
+    if a.replay and json.load(open(a.replay)).get("other_classes_used_first"):
+        warmed = warm_other_classes(lib)
 
     out = open(a.out, "w")
     kept = {}
@@ -179,6 +232,8 @@ def main(argv=None):
         ev = {"src": src, "i": idx, "h": h, "v": res["verdict"], "tags": res["tags"], "nt": res["nontrivial"]}
         if fid:
             ev["fid"] = fid
+        if warmed and res["verdict"] != HELD:
+            ev["warm"] = True      # the shard had used the library's other classes first (needed to replay)
         keep = res["verdict"] not in (HELD,)
         key = (res["verdict"],) + tuple(sorted(res["tags"]))[:4]
         huge = isinstance(case, dict) and any(isinstance(case.get(k_), list) and len(case[k_]) > 2000 for k_ in ("lens", "vals", "samples", "keys"))
@@ -236,7 +291,7 @@ def main(argv=None):
                 emit("finish", 0, case, res)
     summ = {"summary": True, "shard": a.shard, "events": n, "mon": CTX.mon, "cov": cov.hits() if cov_on else None,
             "cov_on": cov_on, "wall_s": round(time.time() - t0, 2), "probe_alerts": CTX.probe_alerts,
-            "lib_file": os.path.realpath(lib.__file__)}
+            "lib_file": os.path.realpath(lib.__file__), "other_classes_used_first": warmed}
     if not a.replay:
         summ["random_planned"] = mine
         summ["random_done"] = done
